@@ -428,7 +428,14 @@ def run_tmppool_case(col, workdir, case):
     def fail(m, op):
         failures.append((m, op))
 
+    decoy = decoy_path = None
     try:
+        if not multi:
+            # a second single-process pool that is alive the whole time and owns one file: pools are independent
+            decoy_dir = tempfile.mkdtemp(prefix="decoy", dir=workdir)
+            decoy = TmpPool(decoy_dir)
+            decoy.__enter__()
+            decoy_path = decoy.create()
         if multi:
             pool_obj = TmpPool(d, multi_proc=True)
         elif case.get("dmode") == "default":
@@ -498,12 +505,23 @@ def run_tmppool_case(col, workdir, case):
             m.sig_extra = dict(m.sig_extra, exit=("exception" if exit_mode != "normal" else "normal"),
                                after_body_mismatch=bool(failures))
             fail(m, "exit")
+        if decoy is not None:
+            seen_ = (observe(lambda: list(decoy)), os.path.exists(decoy_path))
+            if seen_ != (("ok", [decoy_path]), True):
+                fail(Mismatch("other-pool-disturbed", "another TmpPool that owned one file during this case now lists %r, "
+                              "its file exists: %r" % (seen_[0], seen_[1]), {"exit": exit_mode}), "exit")
         if exit_mode == "escape":
             col.count("escape:" + (type(inner).__name__ if inner is not None else "no exception"))
         if hasattr(drv, "last_gone"):
             col.count("remove_gone:" + (drv.last_gone[1] if drv.last_gone[0] == "exc" else "returns"))
     finally:
         tempfile.tempdir = old_tempdir
+        if decoy is not None:
+            try:
+                decoy.__exit__(None, None, None)
+            except Exception:   # noqa
+                pass
+            shutil.rmtree(os.path.dirname(decoy_path) if decoy_path else "/nonexistent", ignore_errors=True)
         drv.stop_children()
         drv.pool = None
         pool_obj = pool = None
